@@ -18,7 +18,8 @@ RULE = 'distinct protocol lines on non-empty trees on which the implementation r
 TRUSTED = ['correspondence harness (pv.engine, pv.proto), generators and deep snapshots of pv.props.c15',
            'Lean driver parser/printer (PygModel/Basic.lean, TreeDriver.lean)']
 ASSUMPTIONS = ['python dict semantics (insertion order; d[k]=v overwrites in place or appends) as DA.lookup / DA.set',
-               'the class of the tree (dict / Dict / dictattr) is not modelled: the runner checks type(result) is type(tree)',
+               'the class of the tree (dict / Dict / dictattr) is not modelled except for the dotted-path fallback of dictattr / Dict item access (Tree.getItemC): the runner checks type(result) is type(tree) and that new branches get the class of the tree',
+               'str.split(\'.\') is String.splitOn "." (string forms of tree_getitem / tree_setitem are split by the driver)',
                'leaves are None / ints / strings / lists; the ignore list holds None and strings (in_ uses eq, modelled as equality)',
                'aliasing of leaf objects between operands and result is not modelled (only dict nodes are snapshotted deeply)',
                'tree_to_table / table_to_tree: modelled and sampled (ops totable / totree); the inverse law is an implementation-level law, not a Lean theorem; dictable(tree, pattern) not modelled']
